@@ -3,6 +3,7 @@ writes evidence and replay files, prints VIOLATION / KNOWN-FINDING lines and dec
 import hashlib
 import json
 import os
+import tempfile
 import random
 import sys
 import time
@@ -12,6 +13,9 @@ from . import tlc
 
 VERIF = tlc.VERIF
 EVIDENCE = os.path.join(VERIF, "evidence")
+if os.path.realpath(os.environ.get("J2M_REPO", "/repo")) != os.path.realpath("/repo"):
+    # a run against a scratch tree (seeded change, mutant): its evidence is not evidence about /repo
+    EVIDENCE = os.path.join(tempfile.gettempdir(), "j2m-evidence-scratch")
 REPLAYS = os.path.join(VERIF, "replays")
 KNOWN = os.path.join(VERIF, "known_findings.json")
 
